@@ -104,7 +104,7 @@ CHECKS["C07"] = (
     "the chunk equal the in-window stretch; CDS never dropped while the transcript stays coding; a CDS with no base in the chunk has no "
     "chunk-relative codon; computed identifiers (real MD5) of feature/transcript/CDS/gene/collections equal across no parent / chromosome / chunk. "
     "F8b and F18 excluded by their exact regions."
-    " Also: every position conversion of a coding transcript on a cutting chunk equals the parent-less twin's; isoform CDSs with equal spans evaluated alternately on one chunk; the primary transcript/feature is the twin's.",
+    " Also: every position conversion of a coding transcript on a cutting chunk equals the parent-less twin's; isoform CDSs with equal spans evaluated alternately on one chunk; the primary transcript/feature is the twin's. Block structure of the chunk view = chromosome blocks clipped to the window (touching blocks kept apart); codon windows by chromosome start/end on chunk-built CDSs list exactly the model codons inside window and chunk (defect found and repaired, a55c0c6); stop/start predicates and scan_codons of the chunk view.",
     _NOTE, "DESIGN.md §3 C07")
 CHECKS["C08"] = (
     _CH + "; cvc5/z3 string queries over digest pre-image templates extracted from the real constructors",
@@ -126,7 +126,7 @@ CHECKS["C13"] = (
     "the solver, whole chromosome and chunk): alternative_genomic_sequence == literal substitution, lifted locations and "
     "Feature/Transcript(coding and non-coding)/CDS.incorporate_variants reproduce the edited reference (CDS also in frame and inside the "
     "exons); 3-variant collections in any order refused exactly when a pair overlaps. F4 (left-to-right collection lift-over) recorded with its region."
-    " Also: collections built with two variant collections (alternative_haplotype_mapping per haplotype); the reference object is unchanged by a lift-over and a second lift-over gives the same answer.",
+    " Also: collections built with two variant collections (alternative_haplotype_mapping per haplotype); the reference object is unchanged by a lift-over and a second lift-over gives the same answer. Single variants on overlapping / nested two-block locations; locations printing the same numbers in chunk and chromosome coordinates lifted through one haplotype object in both orders.",
     _NOTE + " The VCF grouping clause is outside the claim (PyVCF absent).", "DESIGN.md §3 C13")
 CHECKS["C20"] = (
     _CH,
@@ -135,7 +135,7 @@ CHECKS["C20"] = (
     "is_coding = any, primary = flagged (two flags refused) else argmax (CDS, spliced length, earliest) as a symbolic term, merged "
     "transcript/CDS/feature cover exactly the union (probe position), types = union; annotation collections iterate sorted by "
     "start (stable) with inferred bounds; primary sequence accessors on a concrete genome."
-    " Aggregating leaves the members as they were (types of a re-collected member).",
+    " Aggregating leaves the members as they were (types of a re-collected member). Two and three variant collections handed over out of start order.",
     _NOTE, "DESIGN.md §3 C20")
 CHECKS["C09"] = (
     _CH + "; the bin pre-filter is modelled twice: by the EXACT semantics of bins() (z3 terms generated from its source, bin numbers symbolic) and by a nondeterministic CONTRACT stub whose contract C16 proves",
@@ -180,7 +180,7 @@ CHECKS["C17"] = (
     "start/stop/sense codons, every CDS window x start frame x strand x translation table x flavour closed by the solver: "
     "5'-partial <=> first codon not a start of the table, 3'-partial <=> not ending in frame on a stop, codon_start = frame+1, pseudo "
     "<=> in-frame stop, mRNA omitted in the prokaryotic flavour; adjacent CDS blocks merged; seeded output byte-identical."
-    " Also: adjacent CDS blocks with arbitrary annotated frames (pseudo / partial marks / codon_start of the MERGED CDS that is written) and two-exon CDSs with exon lengths 1..9 (stop codons split by the intron).",
+    " Also: adjacent CDS blocks with arbitrary annotated frames (pseudo / partial marks / codon_start of the MERGED CDS that is written) and two-exon CDSs with exon lengths 1..9 (stop codons split by the intron). Isoforms sharing CDS bounds with different first exons keep their own partial marks; exporting one collection three times gives identical text and leaves the model untouched (rRNA/tRNA/ncRNA products).",
     _NOTE, "DESIGN.md §3 C17")
 CHECKS["C10"] = (
     _CH + ": the SCHEDULE of operations is the symbolic variable (real memoisation on, bodies run natively), plus one inductive step over lazy-slot states with symbolic coordinates",
